@@ -21,6 +21,9 @@ OPTSETS = {
     'refine2': {'refinement': 2, 'feastol': 1e-5, 'abstol': 1e-4, 'reltol': 1e-4},
     'maxit1': {'maxiters': 1},
     'maxit3': {'maxiters': 3, 'feastol': 1e-2, 'abstol': 1e-1, 'reltol': 1e-1},
+    # tighter than the global defaults: a wrapper that drops its per-call options falls short of these
+    'tight': {'feastol': 1e-9, 'abstol': 1e-9, 'reltol': 1e-9},
+    'maxit2': {'maxiters': 2},
 }
 
 
@@ -73,6 +76,10 @@ def cfgs_for(d, p, cfgset, tier):
             out.append({'entry': 'conelp', 'storage': 'dense', 'kkt': None, 'junk': 77.0})
             out.append({'entry': 'conelp', 'storage': 'sparse', 'kkt': 'ldl2', 'junk': 77.0, 'opts': LOOSE})
             out.append({'entry': 'conelp', 'storage': 'dense', 'kkt': 'chol', 'junk': -5.0, 'start': 'both'})
+        for ent in (['lp'] if only_l else []) + (['socp'] if not d['s'] else []) + (['sdp'] if not d['q'] else []):
+            for on in ('tight', 'maxit2', 'loose'):
+                out.append({'entry': ent, 'storage': 'dense', 'kkt': None, 'opts': OPTSETS[on], 'optname': on})
+        out.append({'entry': 'conelp', 'storage': 'dense', 'kkt': None, 'opts': OPTSETS['tight'], 'optname': 'tight'})
         if only_l:
             for st in ('dense', 'sparse'):
                 out.append({'entry': 'lp', 'storage': st, 'kkt': None})
